@@ -258,7 +258,7 @@ def main() -> int:
     from ..gen import corpus, hostile
     from . import c04, c14
 
-    v = verdict.Verdict(PROP, level="exploration")
+    v = verdict.Verdict(PROP, level="fault_enumeration")
     thorough = env.tier() == "thorough"
     r = env.rng(PROP, "main")
     cases = []
